@@ -39,7 +39,7 @@ class Job:
                  cbmc=(), timeout=300, mem_gb=8, kind="proof", tiers=("quick", "thorough"),
                  defines=(), fuc=(), assumes=(), solver=None, rec=(), no_canary=False,
                  restrict_fp=(), safety=None, note="", r1=None, r2=None, nondet_static=False,
-                 expect_unwind_fail=False, drop_checks=(), replace_calls=(), native=None, read_hooks=()):
+                 expect_unwind_fail=False, drop_checks=(), replace_calls=(), native=None, read_hooks=(), rewrites=()):
         self.name = name            # job id, unique in the unit
         self.tu = tu                # file under contracts/
         self.harness = harness      # entry function
@@ -68,6 +68,7 @@ class Job:
         self.replace_calls = list(replace_calls)   # ["f:g"] stubs WITH bodies (goto-instrument --replace-calls)
         self.native = native
         self.read_hooks = list(read_hooks)   # [(field, hook_fn)]: rule R4, see preprocess()
+        self.rewrites = list(rewrites)       # [(from, to, expected_count)]: job-specific must-fire rewrites (a bounded stand-in must say so)
 
 
 class Obligation:
@@ -159,6 +160,12 @@ def preprocess(job, wd, log):
     if job.r2 is not None and n2 != job.r2:
         raise Undecided("extraction rule R2 fired %d times, recorded %d" % (n2, job.r2))
     fires = {"R1": n1, "R2": n2}
+    for k, (frm, to, cnt) in enumerate(job.rewrites):
+        n = s.count(frm)
+        if n != cnt:
+            raise Undecided("job rewrite %d fired %d times, recorded %d: %r" % (k, n, cnt, frm))
+        s = s.replace(frm, to)
+        fires["job%d" % k] = n
     if job.read_hooks:
         # R4: inside text that comes from files of the repository, every rvalue read `X->field` of a protocol
         # word (not `&X->field`, not the left side of a plain assignment) becomes `(*hook(&(X->field)))`; the hook
